@@ -629,6 +629,17 @@ theorem history_dependent_without_GravitySettersOK :
     result fs (run fs (fresh fs v0) ops) ≠ result fs (fresh fs (run fs (fresh fs v0) ops).vars) := by
   decide
 
+/-- what a query returns: `Force::Gravity::getBodyForces` / `getPotentialEnergy` after any history deliver the
+value computed from the current variable values (the query fills the lazy cache if it is not valid) -/
+theorem gravity_query_returns_current (fs : List Force) (hw : WF fs) (v0 : Vars) (ops : List Op) (i : Nat)
+    (hs : 5 ≤ (run fs (fresh fs v0) ops).stage) (hg : (fs.getD i default).gravity = true) :
+    (step fs (run fs (fresh fs v0) ops) (.gravQuery i)).lazySnap.getD i [] =
+      inputs fs (run fs (fresh fs v0) ops).vars i := by
+  have h := (Inv.fresh fs v0).run hw ops
+  simp only [C16.step]
+  rw [if_pos ⟨hs, hg⟩]
+  exact (ensure_spec fs _ i h.l hs hg).2.2
+
 /-- **the hypothesis is needed** (the mechanism of finding F4): with a position-only element whose parameter
 invalidates only Dynamics, changing the parameter after a realization gives totals that differ from a fresh
 State's. -/
